@@ -71,7 +71,7 @@ def main():
     meta = dict(property=a.prop, seeded_by="independent sub-agent given only the property text and a scratch worktree",
                 breaks=open(os.path.join(d, "README.md")).read()[:1500] if os.path.exists(os.path.join(d, "README.md")) else "",
                 ran=[], detected_by={}, date=time.strftime("%Y-%m-%d %H:%M"))
-    sh("git checkout -- . ", wt)
+    sh("git checkout -- . && git clean -fdq -e OUT", wt)
     # trials always run on top of the current /repo HEAD (fix: commits land there while agents work)
     rc, head = sh("git -C /repo rev-parse HEAD", wt)
     sh("git checkout -q --detach %s" % head.strip(), wt)
@@ -105,7 +105,7 @@ def main():
                     meta["detected_by"][c]["replay_excerpt"] = open(m.group(1)).read()[:1500]
             print(c, "rc=%s" % rcc, lines[-2:])
     finally:
-        sh("git checkout -- .", wt)
+        sh("git checkout -- . && git clean -fdq -e OUT", wt)
     dst = os.path.join("/verif/seeded", a.id or "%s-%s" % (a.prop, k))
     os.makedirs(dst, exist_ok=True)
     for f in ("patch.diff", "demo_test.go", "README.md"):
